@@ -321,7 +321,7 @@ where
         *ctx.mismatch_before_close.borrow_mut() = if same_records && ctx.plan.faults.is_empty() { Some(last.0.clone()) } else { None };
     }
     let pick = crate::rng::mix_all(&[ctx.plan.sched.seed, 21, ctx.world.seq()]) % 2 == 0;
-    if pick && settle(ctx).await {
+    if pick && !ctx.quiet_close.replace(false) && settle(ctx).await {
         let has = storage.has_active_blob().await;
         let id = if has { storage.records_count_detailed().await.last().map(|x| x.0) } else { None };
         ctx.active_at_close.set(id);
